@@ -45,8 +45,21 @@ type HTTPTarget struct {
 	Respond func(rec *ReqRec, w http.ResponseWriter, r *http.Request)
 }
 
-func NewHTTPTarget(useTLS bool) (*HTTPTarget, error) {
+func NewHTTPTarget(useTLS bool) (*HTTPTarget, error) { return NewHTTPTargetAt("127.0.0.1:0", useTLS) }
+
+// FreePort returns a loopback port that was free a moment ago (nothing listens on it now).
+func FreePort() int {
 	ln, err := net.Listen("tcp", "127.0.0.1:0")
+	if err != nil {
+		return 0
+	}
+	defer ln.Close()
+	return ln.Addr().(*net.TCPAddr).Port
+}
+
+// NewHTTPTargetAt starts the recording target on a given address (a target that comes up late).
+func NewHTTPTargetAt(addr string, useTLS bool) (*HTTPTarget, error) {
+	ln, err := net.Listen("tcp", addr)
 	if err != nil {
 		return nil, err
 	}
@@ -149,7 +162,11 @@ func (t *HTTPTarget) Reset() {
 	t.Connects.Store(0)
 }
 
-func (t *HTTPTarget) Close() { _ = t.srv.Close() }
+func (t *HTTPTarget) Close() {
+	if t.srv != nil {
+		_ = t.srv.Close()
+	}
+}
 
 // SelfSignedCert returns a fresh self-signed certificate for 127.0.0.1 / localhost.
 func SelfSignedCert() (tls.Certificate, error) { return selfSigned() }
